@@ -45,10 +45,24 @@ typedef struct
     /** Offset into ecounter where the previous request left off */
     unsigned offset;
 
+    /** Number of blocks to advance the lane counters by before the next batch */
+    unsigned pending;
+
     /** Base pointer for unaligned memory allocation */
     void *base_ptr;
 
 } Skinny64CTRVec128Ctx_t;
+
+/* Discard the buffered keystream after a key or tweak change.  The next batch
+   starts at the first counter block that has not been used yet, which is what
+   the generic back end does, so all back ends produce the same stream */
+STATIC_INLINE void skinny64_ctr_vec128_reset(Skinny64CTRVec128Ctx_t *ctx)
+{
+    if (ctx->offset < SKINNY64_CTR_BLOCK_SIZE) {
+        ctx->pending = (ctx->offset + SKINNY64_BLOCK_SIZE - 1) / SKINNY64_BLOCK_SIZE;
+        ctx->offset = SKINNY64_CTR_BLOCK_SIZE;
+    }
+}
 
 static int skinny64_ctr_vec128_set_counter
     (Skinny64CTR_t *ctr, const void *counter, unsigned size);
@@ -94,7 +108,7 @@ static int skinny64_ctr_vec128_set_key(Skinny64CTR_t *ctr, const void *key, unsi
         return 0;
 
     /* Reset the keystream */
-    ctx->offset = SKINNY64_CTR_BLOCK_SIZE;
+    skinny64_ctr_vec128_reset(ctx);
     return 1;
 }
 
@@ -115,7 +129,7 @@ static int skinny64_ctr_vec128_set_tweaked_key
         return 0;
 
     /* Reset the keystream */
-    ctx->offset = SKINNY64_CTR_BLOCK_SIZE;
+    skinny64_ctr_vec128_reset(ctx);
     return 1;
 }
 
@@ -134,7 +148,7 @@ static int skinny64_ctr_vec128_set_tweak
         return 0;
 
     /* Reset the keystream */
-    ctx->offset = SKINNY64_CTR_BLOCK_SIZE;
+    skinny64_ctr_vec128_reset(ctx);
     return 1;
 }
 
@@ -180,6 +194,7 @@ static int skinny64_ctr_vec128_set_counter
         memset(block, 0, SKINNY64_BLOCK_SIZE);
     }
     ctx->offset = SKINNY64_CTR_BLOCK_SIZE;
+    ctx->pending = 0;
 
     /* Load the counter block and convert into row vectors */
     ctx->counter[0] = skinny_to_vec8x16(READ_WORD16(block, 0));
@@ -341,16 +356,17 @@ static int skinny64_ctr_vec128_encrypt
     while (size > 0) {
         if (ctx->offset >= SKINNY64_CTR_BLOCK_SIZE) {
             /* We need a new keystream block */
+            skinny64_ctr_increment(ctx->counter, 0, ctx->pending);
+            skinny64_ctr_increment(ctx->counter, 1, ctx->pending);
+            skinny64_ctr_increment(ctx->counter, 2, ctx->pending);
+            skinny64_ctr_increment(ctx->counter, 3, ctx->pending);
+            skinny64_ctr_increment(ctx->counter, 4, ctx->pending);
+            skinny64_ctr_increment(ctx->counter, 5, ctx->pending);
+            skinny64_ctr_increment(ctx->counter, 6, ctx->pending);
+            skinny64_ctr_increment(ctx->counter, 7, ctx->pending);
             skinny64_ecb_encrypt_eight
                 (ctx->ecounter, ctx->counter, &(ctx->kt.ks));
-            skinny64_ctr_increment(ctx->counter, 0, 8);
-            skinny64_ctr_increment(ctx->counter, 1, 8);
-            skinny64_ctr_increment(ctx->counter, 2, 8);
-            skinny64_ctr_increment(ctx->counter, 3, 8);
-            skinny64_ctr_increment(ctx->counter, 4, 8);
-            skinny64_ctr_increment(ctx->counter, 5, 8);
-            skinny64_ctr_increment(ctx->counter, 6, 8);
-            skinny64_ctr_increment(ctx->counter, 7, 8);
+            ctx->pending = 8;
 
             /* XOR an entire keystream block in one go if possible */
             if (size >= SKINNY64_CTR_BLOCK_SIZE) {
